@@ -329,6 +329,10 @@ func decodeMsg(x *r, v Version, op byte) Msg {
 				x.fail("column count %d", m.Meta.ColumnCount)
 				return m
 			}
+			if rem := int64(len(x.b) - x.pos); int64(n)*int64(m.Meta.ColumnCount)*4 > rem {
+				x.fail("%d rows x %d columns cannot fit in the remaining %d bytes", n, m.Meta.ColumnCount, rem)
+				return m
+			}
 			for i := 0; i < int(n) && x.err == nil; i++ {
 				row := make([]Bytes, 0, m.Meta.ColumnCount)
 				for j := 0; j < int(m.Meta.ColumnCount) && x.err == nil; j++ {
